@@ -15,6 +15,8 @@ import (
 func init() { Register("C02", checkC02) }
 
 var c02Pins = []pin{
+	{"collectExprRel", "nf", `match(p0; Expr_EFunCall -> slice.Append(slice.Concat(slice.Map(collectExprRel, payload(Expr_EFunCall).Args)), collectFunCall(payload(Expr_EFunCall))); Expr_EBinOpCall -> slice.Concat([collectExprRel(payload(Expr_EBinOpCall).Lhs), collectExprRel(payload(Expr_EBinOpCall).Rhs), unifyType(ExprToType(payload(Expr_EBinOpCall).Lhs), ExprToType(payload(Expr_EBinOpCall).Rhs)), match(payload(Expr_EBinOpCall).Rtype; FType_FBool -> emptyRels(); _ -> unifyType(payload(Expr_EBinOpCall).Rtype, ExprToType(payload(Expr_EBinOpCall).Lhs)))]); Expr_ETupleExpr -> slice.Concat(slice.Map(collectExprRel, payload(Expr_ETupleExpr))); Expr_ELambda -> collectBlock(collectExprRel, collectStmtRel(collectExprRel, _), payload(Expr_ELambda).Body); Expr_ESlice -> slice.Append(slice.Concat(slice.Map(collectExprRel, payload(Expr_ESlice))), collectSlice(payload(Expr_ESlice))); Expr_ERecordGen -> slice.Append(slice.Concat(slice.Map(collectExprRel, slice.Map(\x0. x0.Expr, payload(Expr_ERecordGen).FieldsNV))), slice.Concat(slice.Map(recNTUnify(payload(Expr_ERecordGen).RecordType, _), slice.Map(NEPToNT, payload(Expr_ERecordGen).FieldsNV)))); Expr_ELazyBlock -> collectBlock(collectExprRel, collectStmtRel(collectExprRel, _), payload(Expr_ELazyBlock).Block); Expr_EReturnableExpr -> match(payload(Expr_EReturnableExpr); ReturnableExpr_RBlock -> collectBlock(collectExprRel, collectStmtRel(collectExprRel, _), payload(ReturnableExpr_RBlock)); ReturnableExpr_RMatchExpr -> slice.Append(collectExprRel(payload(ReturnableExpr_RMatchExpr).Target), slice.Concat(slice.Map(collectBlock(collectExprRel, collectStmtRel(collectExprRel, _), _), mrsToBlocks(payload(ReturnableExpr_RMatchExpr).Rules)))); _ -> never); _ -> emptyRels())`,
+		"constraint generation per expression kind: sub-expressions first; a binary operator relates its operands to each other and — unless its result is bool (a comparison constrains nothing further) — its result to them; slices, record literals, calls and matches add their own anchor relations"},
 	// numbering of leftover variables: first occurrence in the function type (parameters then result), then parameters, then body
 	{"collectTVarLfd", "nf", `slice.Concat([collectTVarFType(p0.Fvar.Ftype), slice.Collect(collectTVarFType, slice.Map(\x0. x0.Ftype, p0.Params)), collectTVarBlockFacade(p0.Body)])`,
 		"leftover type variables are collected from the function's own type first (parameter list then result), in order"},
@@ -63,6 +65,11 @@ func checkC02(c *Ctx) {
 	f := c.LoadFC("fc")
 	if f == nil {
 		return
+	}
+	// (i) names resolve by lexical scope: one binder, one type variable
+	if _, frtProg, _ := libProg(c, "pkg/frt"); frtProg != nil {
+		nr := noReturn(f.Prog, frtProg)
+		r.Import("PAIR", "C02.i", "a name's type is the type of the binder lexical scoping gives it (the scope discipline of C01/C07: push/pop pairing, binders never in the root scope, binders of an expression in a scope of their own) — a parameter or pattern variable that leaks into the enclosing scope unifies the types of two different variables, and the signature is no longer principal", 100, func() { runPair(c, f, nr) })
 	}
 	// (a)
 	sc := f.M.Main().Types.Scope()
